@@ -5,6 +5,7 @@
 package main
 
 import (
+	"encoding/json"
 	"flag"
 	"fmt"
 	"go/ast"
@@ -18,6 +19,8 @@ import (
 	"strings"
 
 	"golang.org/x/tools/go/packages"
+
+	"github.com/shutter-network/rolling-shutter/rolling-shutter/keyper/kproapi"
 )
 
 const modPath = "github.com/shutter-network/rolling-shutter/rolling-shutter"
@@ -293,6 +296,182 @@ func persistFacts(out string) {
 	write(filepath.Join(out, "PersistFacts.lean"), sb.String())
 }
 
+// apiFacts: operations of the OpenAPI document, routes of the generated chi server, and the order in
+// which setupAPIRouter installs middlewares and handlers.
+func apiFacts(repo, out string) {
+	yml, err := os.ReadFile(filepath.Join(repo, "rolling-shutter/keyper/kproapi/oapi.yaml"))
+	if err != nil {
+		fmt.Fprintln(os.Stderr, "factx:", err)
+		os.Exit(1)
+	}
+	type op struct{ path, method, id, ro string }
+	var ops []op
+	inPaths := false
+	curPath, curMethod := "", ""
+	flush := func() {}
+	_ = flush
+	for _, line := range strings.Split(string(yml), "\n") {
+		trimmed := strings.TrimSpace(line)
+		if trimmed == "" || strings.HasPrefix(trimmed, "#") {
+			continue
+		}
+		indent := len(line) - len(strings.TrimLeft(line, " "))
+		switch {
+		case indent == 0:
+			inPaths = trimmed == "paths:"
+			curPath, curMethod = "", ""
+		case !inPaths:
+		case indent == 2 && strings.HasSuffix(trimmed, ":"):
+			curPath = strings.Trim(strings.TrimSuffix(trimmed, ":"), "\"'")
+			curMethod = ""
+		case indent == 4 && strings.HasSuffix(trimmed, ":"):
+			curMethod = strings.ToUpper(strings.TrimSuffix(trimmed, ":"))
+			ops = append(ops, op{path: curPath, method: curMethod, ro: "absent"})
+		case indent == 6 && curMethod != "" && strings.HasPrefix(trimmed, "x-read-only:"):
+			ops[len(ops)-1].ro = strings.TrimSpace(strings.TrimPrefix(trimmed, "x-read-only:"))
+		case indent == 6 && curMethod != "" && strings.HasPrefix(trimmed, "operationId:"):
+			ops[len(ops)-1].id = strings.TrimSpace(strings.TrimPrefix(trimmed, "operationId:"))
+		}
+	}
+	// the document the running server actually consults is the one embedded in the generated code
+	var embedded []op
+	swagger, err := kproapi.GetSwagger()
+	if err != nil {
+		fmt.Fprintln(os.Stderr, "factx: GetSwagger:", err)
+		os.Exit(1)
+	}
+	for path, item := range swagger.Paths {
+		for method, o := range item.Operations() {
+			ro := "absent"
+			if v, ok := o.Extensions["x-read-only"]; ok {
+				switch x := v.(type) {
+				case json.RawMessage:
+					ro = string(x)
+				case bool:
+					ro = fmt.Sprint(x)
+				default:
+					ro = fmt.Sprint(x)
+				}
+			}
+			embedded = append(embedded, op{path: path, method: strings.ToUpper(method), id: o.OperationID, ro: ro})
+		}
+	}
+	sort.SliceStable(embedded, func(i, j int) bool {
+		if embedded[i].path != embedded[j].path {
+			return embedded[i].path < embedded[j].path
+		}
+		return embedded[i].method < embedded[j].method
+	})
+	// routes of the generated server
+	p := load("keyper/kproapi")[0]
+	type route struct{ method, pattern, handler string }
+	var routes []route
+	for _, f := range p.Syntax {
+		if !strings.HasSuffix(p.Fset.Position(f.Pos()).Filename, ".gen.go") {
+			continue
+		}
+		ast.Inspect(f, func(n ast.Node) bool {
+			call, ok := n.(*ast.CallExpr)
+			if !ok || len(call.Args) != 2 {
+				return true
+			}
+			sel, ok := call.Fun.(*ast.SelectorExpr)
+			if !ok {
+				return true
+			}
+			if id, ok := sel.X.(*ast.Ident); !ok || id.Name != "r" {
+				return true
+			}
+			m := strings.ToUpper(sel.Sel.Name)
+			switch m {
+			case "GET", "POST", "PUT", "DELETE", "PATCH", "HEAD", "OPTIONS":
+			default:
+				return true
+			}
+			be, ok := call.Args[0].(*ast.BinaryExpr)
+			if !ok {
+				return true
+			}
+			lit, ok := be.Y.(*ast.BasicLit)
+			if !ok {
+				return true
+			}
+			pat, _ := strconv.Unquote(lit.Value)
+			routes = append(routes, route{m, pat, nodeText(p.Fset, call.Args[1])})
+			return true
+		})
+	}
+	// order of router calls in setupAPIRouter and setupRouter
+	q := load("keyper/kprapi")[0]
+	var setup []string
+	for _, f := range q.Syntax {
+		if isTestFile(q.Fset, f) {
+			continue
+		}
+		for _, d := range f.Decls {
+			fd, ok := d.(*ast.FuncDecl)
+			if !ok || fd.Body == nil || (fd.Name.Name != "setupAPIRouter" && fd.Name.Name != "setupRouter") {
+				continue
+			}
+			ast.Inspect(fd.Body, func(n ast.Node) bool {
+				call, ok := n.(*ast.CallExpr)
+				if !ok {
+					return true
+				}
+				txt := nodeText(q.Fset, call)
+				if strings.HasPrefix(txt, "router.Use(") || strings.HasPrefix(txt, "router.Mount(\"/v1\"") || strings.HasPrefix(txt, "kproapi.HandlerFromMux(") {
+					setup = append(setup, fd.Name.Name+":"+txt)
+				}
+				return true
+			})
+		}
+	}
+	sort.SliceStable(ops, func(i, j int) bool {
+		if ops[i].path != ops[j].path {
+			return ops[i].path < ops[j].path
+		}
+		return ops[i].method < ops[j].method
+	})
+	sort.SliceStable(routes, func(i, j int) bool {
+		if routes[i].pattern != routes[j].pattern {
+			return routes[i].pattern < routes[j].pattern
+		}
+		return routes[i].method < routes[j].method
+	})
+	var sb strings.Builder
+	sb.WriteString("/- GENERATED by harness/factx from keyper/kproapi/oapi.yaml, kproapi/*.gen.go, kprapi/kprapi.go — do not edit. -/\nnamespace Shutter.Generated.ApiFacts\n\n")
+	sb.WriteString("/-- operations of oapi.yaml: (path template, method, operationId, x-read-only) -/\ndef yamlOps : List (String × String × String × String) := [")
+	for i, o := range ops {
+		if i > 0 {
+			sb.WriteString(",")
+		}
+		fmt.Fprintf(&sb, "\n  (%s, %s, %s, %s)", leanStr(o.path), leanStr(o.method), leanStr(o.id), leanStr(o.ro))
+	}
+	sb.WriteString("]\n\n/-- operations of the document embedded in the generated server (kproapi.GetSwagger), which is what the gate reads -/\ndef specOps : List (String × String × String × String) := [")
+	for i, o := range embedded {
+		if i > 0 {
+			sb.WriteString(",")
+		}
+		fmt.Fprintf(&sb, "\n  (%s, %s, %s, %s)", leanStr(o.path), leanStr(o.method), leanStr(o.id), leanStr(o.ro))
+	}
+	sb.WriteString("]\n\n/-- routes registered by the generated chi server: (method, pattern, handler) -/\ndef routes : List (String × String × String) := [")
+	for i, r := range routes {
+		if i > 0 {
+			sb.WriteString(",")
+		}
+		fmt.Fprintf(&sb, "\n  (%s, %s, %s)", leanStr(r.method), leanStr(r.pattern), leanStr(r.handler))
+	}
+	sb.WriteString("]\n\n/-- middleware / mount / handler registration calls in source order -/\ndef setupCalls : List String := [")
+	for i, c := range setup {
+		if i > 0 {
+			sb.WriteString(",")
+		}
+		sb.WriteString("\n  " + leanStr(c))
+	}
+	sb.WriteString("]\n\nend Shutter.Generated.ApiFacts\n")
+	write(filepath.Join(out, "ApiFacts.lean"), sb.String())
+}
+
 func dedup(ps [][2]string) [][2]string {
 	out := [][2]string{}
 	for i, p := range ps {
@@ -329,13 +508,14 @@ func main() {
 	repo := flag.String("repo", "/repo", "repository root")
 	out := flag.String("out", "", "output directory (lean/Shutter/Generated)")
 	flag.Parse()
-	_ = repo
 	for _, what := range flag.Args() {
 		switch what {
 		case "app":
 			appFacts(*out)
 		case "persist":
 			persistFacts(*out)
+		case "api":
+			apiFacts(*repo, *out)
 		default:
 			fmt.Fprintln(os.Stderr, "factx: unknown fact set", what)
 			os.Exit(1)
